@@ -5,7 +5,15 @@ Writes /verif/seeded/<id>/{patch.diff, demo/, meta.json}."""
 import os, sys, json, subprocess, shutil, re, time
 pid = sys.argv[1]; checks = sys.argv[2:] or [pid]
 tag = sys.argv[1] if not os.environ.get('SEED_TAG') else os.environ['SEED_TAG']
-wt = '/tmp/seed-%s-wt' % tag; out = '/tmp/seed-%s-out' % tag
+orig_wt = '/tmp/seed-%s-wt' % tag; out = '/tmp/seed-%s-out' % tag
+# verify on a FRESH worktree of /repo's current HEAD (the agent's worktree may predate later fix: commits)
+wt = '/tmp/seedv-%s-wt' % tag
+subprocess.run('git -C /repo worktree remove --force %s 2>/dev/null; rm -rf %s; git -C /repo worktree add -q --detach %s HEAD' % (wt, wt, wt), shell=True)
+for root, ds, fs in os.walk(orig_wt):
+    if '/target' in root or '/.git' in root: continue
+    for f in fs:
+        if f.startswith('seeded_demo'):
+            rel = os.path.relpath(os.path.join(root, f), orig_wt); os.makedirs(os.path.dirname(os.path.join(wt, rel)), exist_ok=True); shutil.copy(os.path.join(root, f), os.path.join(wt, rel))
 def sh(cmd, cwd=None, timeout=3600):
     p = subprocess.run(cmd, shell=True, cwd=cwd, stdout=subprocess.PIPE, stderr=subprocess.STDOUT, text=True, timeout=timeout)
     return p.returncode, p.stdout
@@ -14,7 +22,7 @@ patch = os.path.join(out, 'patch.diff')
 # normalise: worktree = HEAD + patch (source only)
 sh('git checkout -- src', cwd=wt)
 rc, o = sh('git apply %s' % patch, cwd=wt); res['patch_applies'] = rc == 0
-runsh = open(os.path.join(out, 'demo/run.sh')).read().strip().splitlines()[-1]
+runsh = open(os.path.join(out, 'demo/run.sh')).read().strip().splitlines()[-1].replace(orig_wt, wt)
 res['demo_cmd'] = runsh
 rc, o = sh('cargo build --offline -j6 2>&1 | tail -3', cwd=wt); res['builds_with_change'] = 'error' not in o
 rc, o = sh('cargo test --workspace --no-fail-fast --offline -j6 -- --test-threads 4 2>&1 | grep -E "^test result|FAILED|panicked" | head -20', cwd=wt)
@@ -51,5 +59,11 @@ agent_meta = json.load(open(os.path.join(out, 'meta.json'))) if os.path.exists(o
 meta = {'breaks_property': pid, 'author': 'independent sub-agent given only the property text and a scratch worktree',
         'what_changed': agent_meta.get('what_changed'), 'why_it_breaks_the_property': agent_meta.get('why_it_breaks_the_property'),
         'needs_to_manifest': agent_meta.get('what_it_needs_to_manifest'), 'confirmed_by_lead': res}
-json.dump(meta, open(os.path.join(dst, 'meta.json'), 'w'), indent=1, default=str)
+def trim(x):
+    if isinstance(x, str) and len(x) > 3000: return x[:300] + '...(%d chars)' % len(x)
+    if isinstance(x, list): return [trim(i) for i in x]
+    if isinstance(x, dict): return {k: trim(v) for k, v in x.items()}
+    return x
+json.dump(trim(meta), open(os.path.join(dst, 'meta.json'), 'w'), indent=1, default=str)
+subprocess.run('git -C /repo worktree remove --force %s' % wt, shell=True)
 print(json.dumps({k: v for k, v in res.items() if k not in ('suite_with_change', 'demo_with_change_tail', 'demo_without_change_tail')}, indent=1, default=str)[:3000])
